@@ -16,7 +16,7 @@ def main():
         name=os.path.basename(d.rstrip('/'))
         if args and not any(a in name for a in args): continue
         meta=json.load(open(d+'meta.json')) if os.path.exists(d+'meta.json') else json.load(open(d+'meta_agent.json'))
-        props=extra or meta.get('checks') or [meta['property']]
+        props=extra or meta.get("checks") or [meta['property']]
         r=sh("git -C %s apply %spatch.diff"%(REPO,d))
         if r.returncode!=0:
             print("%-12s patch does not apply: %s"%(name,r.stderr[:200])); continue
